@@ -97,6 +97,12 @@ func NewPositionRange(lines []string, val *yaml.Node, minColumn int) (offsets Po
 	need := val.Value[needIndex]
 	lineIndex := val.Line
 	columnIndex := val.Column
+	if val.Style&(yaml.LiteralStyle|yaml.FoldedStyle) != 0 {
+		// Block scalars start on the line after the header (`|`, `>-`, `|2 # comment` ...),
+		// nothing on the header line is part of the value.
+		lineIndex++
+		columnIndex = minColumn
+	}
 
 	for lineIndex <= len(lines) {
 		// Append new line but only if we already have any tokens.
